@@ -79,13 +79,29 @@ pub fn bundles() -> Vec<(String, SpendBundle)> {
         let amt = vec![0x03, 0xe8];
         let my_amount = cond(&[vec![73], amt.clone()]);
         let create = cond(&[vec![51], vec![9u8; 32], vec![100]]);
-        let aggsig = cond(&[vec![49], pk, b"hello".to_vec()]);
+        let aggsig = cond(&[vec![49], pk.clone(), b"hello".to_vec()]);
         let send = cond(&[vec![66], vec![0b01_0010], b"hi".to_vec(), ph.clone()]);
         let recv = cond(&[vec![67], vec![0b01_0010], b"hi".to_vec(), ph.clone()]);
         v.push(("last-generic".into(), SpendBundle::new(vec![spend(1, 1000, list(&[create.clone(), my_amount.clone()]))], Signature::default())));
         v.push(("last-aggsig".into(), SpendBundle::new(vec![spend(1, 1000, list(&[my_amount.clone(), aggsig]))], Signature::default())));
         v.push(("last-message".into(), SpendBundle::new(vec![spend(1, 1000, list(&[my_amount.clone(), send, recv]))], Signature::default())));
         v.push(("last-create-coin".into(), SpendBundle::new(vec![spend(1, 1000, list(&[my_amount.clone(), create.clone()]))], Signature::default())));
+        // one spend with every kind of signature condition (distinct messages), every time lock, birth assertions, a fee and a
+        // hinted output: the reported (owned) form must carry each of them in the right place
+        {
+            let mut conds = vec![];
+            for (i, op) in [43u8, 44, 45, 46, 47, 48, 49, 50].iter().enumerate() { conds.push(cond(&[vec![*op], pk.clone(), vec![b'm', i as u8, *op]])); }
+            conds.push(cond(&[vec![46], pk.clone(), b"second-46".to_vec()]));
+            for (op, v) in [(80u8, vec![5u8]), (81, vec![6]), (82, vec![7]), (83, vec![8]), (84, vec![100]), (85, vec![0x00, 200]), (86, vec![0x01, 0x2c]), (87, vec![0x01, 0x90]), (74, vec![9]), (75, vec![10]), (52, vec![1])] {
+                conds.push(cond(&[vec![op], v]));
+            }
+            // (51 ph 500 (hint)) - the memo list is a nested list: built by hand
+            let mut cc = vec![0xff, 51, 0xff]; cc.extend(atom(&[9u8; 32])); cc.push(0xff); cc.extend(atom(&[0x01, 0xf4])); cc.push(0xff);
+            cc.push(0xff); cc.extend(atom(&[0x77u8; 32])); cc.push(0x80); cc.push(0x80);
+            conds.push(cc);
+            conds.push(cond(&[vec![51], vec![8u8; 32], vec![0x01, 0xf3]]));
+            v.push(("rich-conditions".into(), SpendBundle::new(vec![spend(1, 1000, list(&conds))], Signature::default())));
+        }
         // interning is not symmetric in puzzle and solution here: the solution holds the sub-tree (1), which is also the puzzle
         let remark = cond(&[vec![1]]);
         v.push(("interned-asymmetric".into(), SpendBundle::new(vec![spend(1, 1000, list(&[remark.clone(), my_amount.clone(), create.clone(), remark.clone()]))], Signature::default())));
@@ -178,7 +194,7 @@ pub fn check_bundle(name: &str, b: &SpendBundle, interned: bool, strict: bool) -
     // verdicts the rules prescribe for the mempool path
     for (bn, want) in [("spends-6000", true), ("spends-6001", false), ("amount-0x8000000000000000", true), ("amount-0xffffffffffffffff", true),
                        ("two-spends", true), ("wrong-my-amount", false), ("forged-second-reveal", false), ("forged-first-reveal", false), ("forged-third-reveal", false),
-                       ("above-u64-minting", false), ("above-u64-exact", true), ("above-u64-fee-covered", true), ("above-u64-fee-short", false), ("interned-asymmetric", true), ("two-outputs-one-puzzle-hash", true), ("minting", false), ("empty", true),
+                       ("above-u64-minting", false), ("above-u64-exact", true), ("above-u64-fee-covered", true), ("above-u64-fee-short", false), ("interned-asymmetric", true), ("two-outputs-one-puzzle-hash", true), ("rich-conditions", true), ("minting", false), ("empty", true),
                        ("last-generic", true), ("last-aggsig", true), ("last-message", true), ("last-create-coin", true)] {
         if name == bn && strict {
             n += 1;
@@ -189,6 +205,43 @@ pub fn check_bundle(name: &str, b: &SpendBundle, interned: bool, strict: bool) -
         // an operator the lenient dialect tolerates and the strict one refuses: the verdict follows the flags given
         n += 1;
         if mem.is_ok() == strict { fails.push((format!("{name}/{tag}/dialect-verdict"), format!("run_spendbundle accepted = {} with {} flags", mem.is_ok(), if strict { "mempool" } else { "block-validation" }))); }
+    }
+    // the owned (reported) form says, field by field, what the parsed conditions say
+    if mem.is_ok() {
+        n += 1;
+        let mut a5 = make_allocator(ConsensusFlags::LIMIT_HEAP);
+        if let Ok((raw, _)) = run_spendbundle(&mut a5, b, max, flags, &TEST_CONSTANTS) {
+            let pkm = |a: &clvmr::Allocator, l: &Vec<(chia_bls::PublicKey, clvmr::NodePtr)>| -> String { l.iter().map(|(k, m)| format!("{}:{}", hex::encode(k.to_bytes()), hex::encode(a.atom(*m).as_ref()))).collect::<Vec<_>>().join(",") };
+            let opkm = |l: &Vec<(chia_bls::PublicKey, chia_protocol::Bytes)>| -> String { l.iter().map(|(k, m)| format!("{}:{}", hex::encode(k.to_bytes()), hex::encode(m.as_ref()))).collect::<Vec<_>>().join(",") };
+            let raw_desc: Vec<String> = raw.spends.iter().map(|s| {
+                let mut cc: Vec<String> = s.create_coin.iter().map(|c| format!("{}:{}:{}", hex::encode(c.puzzle_hash), c.amount, if c.hint == a5.nil() { "-".to_string() } else { hex::encode(a5.atom(c.hint).as_ref()) })).collect();
+                cc.sort();
+                format!("id={} par={} ph={} amt={} hr={:?} sr={:?} bhr={:?} bsr={:?} bh={:?} bs={:?} cc=[{}] me=[{}] parent=[{}] puzzle=[{}] amount=[{}] pa=[{}] para=[{}] parp=[{}] flags={} ec={} cond={} fp={}",
+                    hex::encode(*s.coin_id), hex::encode(a5.atom(s.parent_id).as_ref()), hex::encode(a5.atom(s.puzzle_hash).as_ref()), s.coin_amount,
+                    s.height_relative, s.seconds_relative, s.before_height_relative, s.before_seconds_relative, s.birth_height, s.birth_seconds, cc.join(","),
+                    pkm(&a5, &s.agg_sig_me), pkm(&a5, &s.agg_sig_parent), pkm(&a5, &s.agg_sig_puzzle), pkm(&a5, &s.agg_sig_amount), pkm(&a5, &s.agg_sig_puzzle_amount),
+                    pkm(&a5, &s.agg_sig_parent_amount), pkm(&a5, &s.agg_sig_parent_puzzle), s.flags, s.execution_cost, s.condition_cost,
+                    if s.flags & chia_consensus::conditions::ELIGIBLE_FOR_DEDUP != 0 { hex::encode(s.fingerprint) } else { String::new() })
+            }).collect();
+            let raw_bundle = format!("fee={} ha={} sa={} bha={:?} bsa={:?} unsafe=[{}] cost={} rem={} add={} vs={} ec={} cond={}", raw.reserve_fee, raw.height_absolute, raw.seconds_absolute,
+                raw.before_height_absolute, raw.before_seconds_absolute, pkm(&a5, &raw.agg_sig_unsafe), raw.cost, raw.removal_amount, raw.addition_amount, raw.validated_signature, raw.execution_cost, raw.condition_cost);
+            let o = OwnedSpendBundleConditions::from(&a5, raw);
+            let own_desc: Vec<String> = o.spends.iter().map(|s| {
+                let mut cc: Vec<String> = s.create_coin.iter().map(|c| format!("{}:{}:{}", hex::encode(c.0), c.1, match &c.2 { None => "-".to_string(), Some(h) => hex::encode(h.as_ref()) })).collect();
+                cc.sort();
+                format!("id={} par={} ph={} amt={} hr={:?} sr={:?} bhr={:?} bsr={:?} bh={:?} bs={:?} cc=[{}] me=[{}] parent=[{}] puzzle=[{}] amount=[{}] pa=[{}] para=[{}] parp=[{}] flags={} ec={} cond={} fp={}",
+                    hex::encode(s.coin_id), hex::encode(s.parent_id), hex::encode(s.puzzle_hash), s.coin_amount,
+                    s.height_relative, s.seconds_relative, s.before_height_relative, s.before_seconds_relative, s.birth_height, s.birth_seconds, cc.join(","),
+                    opkm(&s.agg_sig_me), opkm(&s.agg_sig_parent), opkm(&s.agg_sig_puzzle), opkm(&s.agg_sig_amount), opkm(&s.agg_sig_puzzle_amount),
+                    opkm(&s.agg_sig_parent_amount), opkm(&s.agg_sig_parent_puzzle), s.flags, s.execution_cost, s.condition_cost, hex::encode(s.fingerprint.as_ref()))
+            }).collect();
+            let own_bundle = format!("fee={} ha={} sa={} bha={:?} bsa={:?} unsafe=[{}] cost={} rem={} add={} vs={} ec={} cond={}", o.reserve_fee, o.height_absolute, o.seconds_absolute,
+                o.before_height_absolute, o.before_seconds_absolute, opkm(&o.agg_sig_unsafe), o.cost, o.removal_amount, o.addition_amount, o.validated_signature, o.execution_cost, o.condition_cost);
+            if raw_desc != own_desc || raw_bundle != own_bundle {
+                let which = raw_desc.iter().zip(own_desc.iter()).position(|(x, y)| x != y);
+                fails.push((format!("{name}/{tag}/owned-fields"), format!("the reported (owned) conditions differ from the parsed ones: {}", match which { Some(i) => format!("spend #{i}: parsed {} ; reported {}", raw_desc[i], own_desc[i]), None => format!("bundle: parsed {raw_bundle} ; reported {own_bundle}") })));
+            }
+        }
     }
     // C02: the owned (reported) form lists every created coin: as many as the parsed conditions hold, adding up to addition_amount
     if let Ok(m) = &mem {
